@@ -258,7 +258,12 @@ func Drive(e Engine, o DriverOpts) int {
 				exit = cmd.ProcessState.ExitCode()
 			}
 			stderrTail := tailFile(base+".stderr", 12000)
-			if hb, err := os.ReadFile(hangPath); err == nil && exit == 3 {
+			if hb, err := os.ReadFile(hangPath); err == nil && exit == 4 {
+				lines := strings.SplitN(string(hb), "\n", 4)
+				phase, dump := safeIdx(lines, 1), safeIdx(lines, 3)
+				addViolation(Violation{Prop: prop, Key: "deadlock:" + blockedFrame(dump), Msg: "case made no progress while the process was CPU-idle (goroutines parked under imagemeta frames): " + phase + " " + safeIdx(lines, 2),
+					Tier: tier, Seed: seed, Index: cur, Detail: mustJSON(map[string]any{"phase": phase, "goroutines": clip(dump, 8000)})})
+			} else if hb, err := os.ReadFile(hangPath); err == nil && exit == 3 {
 				lines := strings.SplitN(string(hb), "\n", 4)
 				phase := ""
 				if len(lines) > 1 {
@@ -283,6 +288,9 @@ func Drive(e Engine, o DriverOpts) int {
 				return
 			}
 			abnormal++
+			if exit == 4 {
+				abnormal += 2 // an idle deadlock costs a two-minute window each time
+			}
 			if abnormal >= 6 {
 				// every abnormal end is already reported as a violation; the rest of this shard
 				// would mostly repeat it at the price of one CPU budget per case
@@ -458,6 +466,17 @@ func crashKey(stderr string, exit int) (key, what string) {
 	}
 	class = strings.ReplaceAll(class, " ", "_")
 	return "crash:" + InnermostFrame([]byte(stderr)) + ":" + class, m
+}
+
+// blockedFrame finds the innermost imagemeta frame of the first goroutine that is parked in a
+// synchronisation primitive.
+func blockedFrame(dump string) string {
+	for _, g := range strings.Split(dump, "\n\n") {
+		if (strings.Contains(g, "sync.") || strings.Contains(g, "semacquire")) && strings.Contains(g, "evanoberholster/imagemeta") {
+			return InnermostFrame([]byte(g))
+		}
+	}
+	return InnermostFrame([]byte(dump))
 }
 
 // hangFrame finds the innermost imagemeta frame of the first goroutine that has one.
